@@ -1,6 +1,7 @@
 package storesim
 
 import (
+	"os"
 	"context"
 	"fmt"
 	"math"
@@ -324,7 +325,7 @@ func (r *runner) compareSearch(label string, s *Search, corpus *model.Corpus) bo
 			}
 		}
 	}
-	if len(s.Aggs) > 0 && !r.c.Oracles.NoAggs {
+	if len(s.Aggs) > 0 && !r.c.Oracles.NoAggs && !r.copiesPossible() {
 		got := padAggs(res.Aggs, len(s.Aggs))
 		if len(got) != len(s.Aggs) {
 			r.violate("aggregation", "%s: %d aggregations requested, %d returned", label, len(s.Aggs), len(res.Aggs))
@@ -437,6 +438,23 @@ func compareTS(a simenv.AggReq, got []tsBin, docs []*model.Doc) string {
 		return fmt.Sprintf("cell %q@%d missing (model total %d) for interval %d", c.tok, c.mid, wantCells[c].Total, iv)
 	}
 	return ""
+}
+
+// copiesPossible: a write or fsync of the active files has failed in this run and the store went on. The bulk
+// it belonged to is retried by the store itself (FracManager.Append loops), possibly into the next fraction,
+// while the block of the failed attempt may be complete in the files and come back at the next replay: the
+// same document can then sit in two fractions. The merge corrects listing, total and histogram for such
+// repetitions, not aggregations (DESIGN section 10), and no property promises more.
+func (r *runner) copiesPossible() bool {
+	if os.Getenv("VERIF_DEBUG_STRICT_AGGS") != "" {
+		return false
+	}
+	for _, f := range r.w.Plan {
+		if f.Fired && (f.Op == "write" || f.Op == "sync") && f.Action != "crash" && f.Action != "exit" {
+			return true
+		}
+	}
+	return false
 }
 
 // needsSamples: the values themselves are only kept (and compared) for a quantile strictly inside (0,1);
